@@ -352,7 +352,9 @@ func C20(tier Tier) int {
 		for _, id := range ids {
 			id := id
 			var onMeta, isMeta bool
-			if p := guard(func() { onMeta, isMeta = vmcommon.IsSmartContractOnMetachain(id, a), vmcommon.IsMetachainIdentifier(id) }); p != nil {
+			if p := guard(func() {
+				onMeta, isMeta = vmcommon.IsSmartContractOnMetachain(id, a), vmcommon.IsMetachainIdentifier(id)
+			}); p != nil {
 				addrs.Fail(P, "address", "classifier-panic", fmt.Sprintf("IsSmartContractOnMetachain(%x,%x) panicked: %v", id, a, p), "case", fmt.Sprintf("%x", a))
 				continue
 			}
